@@ -34,7 +34,11 @@ func (te *tableEngine) tableGameOpen() error {
 			reopened := false
 
 			for i := 0; i < retry; i++ {
+				// do not hold the engine lock while waiting: joins, buy-ins and blind updates (the very
+				// things a retry waits for) must be able to proceed
+				te.lock.Unlock()
 				time.Sleep(time.Second * 3)
+				te.lock.Lock()
 
 				// 已經開始新的一手遊戲，不做任何事
 				gameStartingStatuses := []TableStateStatus{
